@@ -69,6 +69,7 @@ class P(Prop):
         ("TracklibVerif.Props.C19", "TV.C19.session_spec_after_setters", "session_spec read later: after its computeAggregates, then any calls other than computeAggregates (setNoDataValue to 0 / a count / a value a cell really holds, several times in a row; addAFMap), EVERY band it wrote still holds its operator over exactly the located values of T; a cell without value: 0 for count / sum, otherwise the no-data value the raster had AT that computeAggregates, not the current one"),
         ("TracklibVerif.Props.C19", "TV.C19.compute_failing_bands", "a failing computeAggregates: the bands before the first band that raises are rewritten, that band and the following ones are exactly as they were, nothing else of the raster changes"),
         ("TracklibVerif.Props.C19Partial", "TV.C19.add_collection_partial", "WHAT HAS BEEN WRITTEN when the TypeError of an observation outside the extent leaves addCollectionToRaster (any raster state, tracks before the failing one inside the extent, every track having every feature): TypeError, bands / geometry / no-data untouched, the replaced dictionary has the features of the bands in iteration order, and cell (i,j) of feature af holds exactly the values of af of the observations written — a prefix of the for trace: for afname: for i: order: every observation of the tracks before the failing one for every feature and, for the FIRST feature of the iteration order only, the observations of the failing track before its first one outside; nothing of the failing track for the other features, nothing of the later tracks"),
+        ("TracklibVerif.Props.C19Partial", "TV.C19.add_collection_partial_total", "add_collection_partial covers EVERY TypeError of add_collection_outside: a collection with an observation outside the extent splits at its FIRST track with one (the tracks before it inside the extent), and what addCollectionToRaster leaves is the written prefix for that split"),
         ("TracklibVerif.Props.C19Partial", "TV.C19.partial_conservation", "'conserves observations' on the exception path: after the failing addCollectionToRaster the cell sizes of a feature add up to the number of observations WRITTEN for it (that prefix), any per-value weight (non-NaN: the co_count total) is conserved on them — nothing written twice, nothing written lost"),
         ("TracklibVerif.Props.C19Partial", "TV.C19.partial_then_compute", "a later computeAggregates aggregates exactly what was written: after the failing addCollectionToRaster (caught), any calls other than addCollectionToRaster (setNoDataValue, addAFMap, computeAggregates), then computeAggregates with every band <feature>#<operator>: it does not raise and EVERY band holds its operator over exactly the written observations of its feature located in each cell, NaN -> the raster's no-data value at that call"),
     ]
